@@ -59,10 +59,15 @@ class Case:
         self.names = None
         self.info = {}
         self.skip = None
+        self.invalid = None       # why the transformed tree is not valid Fortran
 
     def payload(self):
         return {"kind": self.kind, "src": self.src, "target": self.target, "options": self.opts,
                 "literal_negative_step": self.litstep}
+
+
+class InvalidFortran(Exception):
+    """the transformed tree is not a valid Fortran program"""
 
 
 def parse5(src):
@@ -78,13 +83,21 @@ def lower_calls(routine):
     """MiniF has no calls: `call bump(x)` / `call addto(x, d)` (module c05_mod of c05_gen) are replaced
     by the assignments their bodies perform, `x = 2 * x` / `x = x + d`.  A call argument is a
     READWRITE access for PSyclone; the model sees the read followed by the write."""
-    from psyclone.psyir.nodes import Assignment, BinaryOperation, Call, Literal
+    from psyclone.psyir.nodes import Assignment, BinaryOperation, Call, Literal, Reference
     from psyclone.psyir.symbols import INTEGER_TYPE
     for call in routine.walk(Call):
         if type(call) is not Call:      # IntrinsicCall (MAX, MOD, ...) is an expression
             continue
         name = call.routine.name.lower()
         args = call.arguments if hasattr(call, "arguments") else call.children[1:]
+        if not isinstance(args[0], Reference):
+            # an expression as actual argument (only a broken transformation produces this):
+            # `bump` has no INTENT, gfortran passes a temporary and the call has no effect;
+            # for the INTENT(INOUT) dummy of `addto` the program is not valid Fortran
+            if name == "bump":
+                call.detach()
+                continue
+            raise InvalidFortran(f"call {name}: expression passed to an INTENT(INOUT) dummy argument")
         if name == "bump" and len(args) == 1:
             new = Assignment.create(args[0].copy(), BinaryOperation.create(
                 BinaryOperation.Operator.MUL, Literal("2", INTEGER_TYPE), args[0].copy()))
@@ -270,8 +283,13 @@ def run_real(case):
         if case.accepted:
             case.new_src = minif.write_program(psyir)
             if has_calls:
-                lower_calls(routine)
-            if kind == "fuse":
+                try:
+                    lower_calls(routine)
+                except InvalidFortran as e:
+                    case.invalid = str(e)
+            if case.invalid:
+                case.real_out = ["invalid-fortran", case.invalid]
+            elif kind == "fuse":
                 case.real_out = norm(minif.export_stmt(l1, names))
             elif kind == "hoist":
                 case.real_out = norm(["seqs", minif.export_stmt(parent.children[pos], names),
@@ -281,12 +299,13 @@ def run_real(case):
                                                  for c in parent.children[pos:loop.position + 1]])
             elif kind != "replaceiv":
                 case.real_out = norm(minif.export_stmt(parent.children[pos], names))
-            if kind == "replaceiv":
+            if kind == "replaceiv" and not case.invalid:
                 n_new = len(parent.children) - n_siblings
                 case.info["post_assigned"] = [c.lhs.name for c in parent.children[pos + 1:pos + 1 + n_new]]
                 case.real_out = norm(["seqs"] + [minif.export_stmt(c, names)
                                                  for c in parent.children[pos:pos + 1 + n_new]])
-            case.new_prog = minif.export_stmt(routine, names)
+            if not case.invalid:
+                case.new_prog = minif.export_stmt(routine, names)
         # ---- model line
         if kind == "chunk":
             if case.accepted:
@@ -513,7 +532,7 @@ def evaluate(chk, cases, stats, gf_budget, sample_rate=0.04):
     model = common.driver("C05", [c.line for c in live])
     jobs, owners = [], []
     for c in live:
-        if c.accepted:
+        if c.accepted and c.new_prog is not None:
             q = c.prog.queries(c.names)
             jobs += [(c.orig_prog, [], q), (c.new_prog, [], q)]
             owners.append(c)
@@ -545,6 +564,9 @@ def evaluate(chk, cases, stats, gf_budget, sample_rate=0.04):
         if not c.accepted:
             continue
         # ---- the property itself on the real code's result
+        if c.new_prog is None:          # transformed tree is not valid Fortran: let gfortran judge
+            todo.append((c, None, None, agreed))
+            continue
         o, n = exec_res[id(c)]
         if minif.overflowed(o) or minif.overflowed(n):
             stats["overflow_skipped"] += 1
@@ -563,7 +585,7 @@ def evaluate(chk, cases, stats, gf_budget, sample_rate=0.04):
             continue
         todo.append((c, o, n, agreed))
     # ---- gfortran confirmation (unclassified differences first, then the validation sample)
-    todo.sort(key=lambda t: t[1] == t[2])
+    todo.sort(key=lambda t: t[1] is not None and t[1] == t[2])
     if len(todo) > gf_budget[0]:
         stats["gfortran_budget_exhausted"] += len(todo) - gf_budget[0]
         todo = todo[:gf_budget[0]]
@@ -574,12 +596,25 @@ def evaluate(chk, cases, stats, gf_budget, sample_rate=0.04):
     for (c, o, n, agreed), (res, err) in zip(todo, results):
         stats["gfortran_runs"] += 1
         if res is None:
+            if err[0] == "ok" and err[1] == "compile-error":
+                # the original compiles, the accepted result does not: a failing input
+                stats["failing"] += 1
+                if stats["failing"] <= 3:
+                    pay = c.payload()
+                    pay.update({"kind_of_failure": "failing-input", "transformed": c.new_src,
+                                "observed": "transformed program is rejected by gfortran: " + err[2][-300:],
+                                "expected": "a program that compiles and prints the same values as the original",
+                                "model_agreed": agreed})
+                    chk.violation(pay)
+                continue
             if err[0] == "compile-error" or err[1] == "compile-error":
                 raise common.Infra(f"gfortran rejects a program: {err}\n{c.src}\n{c.new_src}")
             stats["gfortran_trap_skipped"] += 1
             continue
         g0, g1 = res
-        if g0 != o or g1 != n:
+        if o is None:
+            pass
+        elif g0 != o or g1 != n:
             stats["oracle_disagreements"] += 1      # MiniF/exporter vs gfortran (e.g. out-of-bounds access)
             stats.setdefault("oracle_disagreement_sample", c.payload())
         else:
@@ -636,6 +671,8 @@ def judge_replay(c, gf):
     if not c.accepted:
         return False, "refused: " + c.error[:200]
     res, err = gf
+    if res is None and err[0] == "ok" and err[1] == "compile-error":
+        return True, "accepted; the transformed program is rejected by gfortran: " + err[2][-200:]
     if res is None:
         return False, f"gfortran: {err}"
     g0, g1 = res
